@@ -32,6 +32,7 @@ var (
 	verif    = flag.String("verif", "/verif", "verification directory")
 	replay   = flag.String("replay", "", "replay file to re-execute")
 	multiOK  = flag.Bool("multi", true, "multiReadCloser sub-leg was built")
+	inproc   = flag.Bool("inproc", true, "the in-process harness (the template calling run) could be built")
 	noProbe  = flag.Bool("no-probe", false, "skip the invocation-independence probe (to exercise the fallback that repeats the exploration)")
 	selftest = flag.Bool("selftest-determinism", false, "run the determinism self-test instead of the check")
 	budgetS  = flag.Int("budget", 0, "thorough tier wall-clock budget in seconds (VERIF_BUDGET_S)")
@@ -179,7 +180,7 @@ func thoroughCfg(seed uint64, budgetMs int) c16sim.WorkerConfig {
 
 func main() {
 	flag.Parse()
-	if *simBin == "" || *work == "" {
+	if (*simBin == "" && *inproc) || *work == "" {
 		fatal("-bin and -work are required")
 	}
 	parallel := *par
@@ -203,6 +204,10 @@ func explore(parallel int) bool {
 	start := time.Now()
 	base := *seedFlag
 	a := newAgg()
+	if !*inproc {
+		fmt.Println("note: the in-process harness could not be built against this tree (cmd/pql no longer has a function run(context.Context, io.Writer, io.Reader, func(error)) error); exploring with the real binary only: no simulated reader, so no chunking, read-error or cut injection — files, standard input, directories and missing files only (see evidence)")
+		return exploreBinaryOnly(parallel, base, start)
+	}
 	if !isolate && !*noProbe {
 		// Does the outcome of a case depend on what the same process executed before it? The tool runs once
 		// per process; the simulation runs it thousands of times per process and must not blame the tool for
@@ -392,6 +397,67 @@ func explore(parallel int) bool {
 		a.procs, a.scripts, a.runs, a.strict, a.fault, a.sweepRuns, a.sweepScripts, len(a.trans), pl.execs, wall)
 	if len(a.inconclusive) > 0 || len(pl.inconclusive) > 0 {
 		for _, s := range append(a.inconclusive, pl.inconclusive...) {
+			fmt.Println("INCONCLUSIVE:", s)
+		}
+		if reported == 0 {
+			os.Exit(drv.ExitInconclusive)
+		}
+	}
+	if reported > 0 {
+		for _, l := range lines {
+			fmt.Println(l)
+		}
+		os.Exit(drv.ExitViolation)
+	}
+	fmt.Println("C16 held on everything explored")
+	return false
+}
+
+// exploreBinaryOnly is the degraded C16 check for a tree whose run function the harness cannot call.
+func exploreBinaryOnly(parallel int, base uint64, start time.Time) bool {
+	fmt.Printf("C16 %s tier (process-level leg only), VERIF_SEED=%d\n", *tier, base)
+	if old, _ := filepath.Glob(filepath.Join(*verif, "replays", fmt.Sprintf("C16-%d-*.json", base))); len(old) > 0 {
+		for _, f := range old {
+			os.Remove(f)
+		}
+	}
+	findings, err := drv.LoadFindings(filepath.Join(*verif, "known_findings.txt"))
+	if err != nil {
+		fatal("%v", err)
+	}
+	pl := runProcLevel(base, parallel)
+	reported, known, n := 0, 0, 0
+	seenClass := map[string]bool{}
+	var lines []string
+	for _, pv := range pl.violations {
+		if seenClass[pv.Class] {
+			continue
+		}
+		seenClass[pv.Class] = true
+		key := procKey(pv.Proc)
+		if f := drv.MatchFinding(findings, "C16", pv.Class, key); f != nil {
+			fmt.Printf("KNOWN-FINDING: property=C16 class=%s key=%s %s\n", pv.Class, key, f.Text)
+			known++
+			continue
+		}
+		path := filepath.Join(*verif, "replays", fmt.Sprintf("C16-%d-%d.json", base, n))
+		n++
+		os.MkdirAll(filepath.Dir(path), 0o755)
+		if err := drv.WriteJSON(path, pv); err != nil {
+			fatal("%v", err)
+		}
+		lines = append(lines, fmt.Sprintf("VIOLATION property=C16 replay=%s", path))
+		fmt.Printf("  process-level class=%s key=%s argv=%q\n  %s\n", pv.Class, key, pv.Argv, pv.Verdict.Detail)
+		reported++
+	}
+	wall := time.Since(start).Seconds()
+	a := newAgg()
+	if !*noEvid {
+		writeEvidence(a, pl, base, []uint64{base}, wall, reported, known, parallel)
+	}
+	fmt.Printf("C16: %d process-level executions of the real binary, %.1f s\n", pl.execs, wall)
+	if len(pl.inconclusive) > 0 {
+		for _, s := range pl.inconclusive {
 			fmt.Println("INCONCLUSIVE:", s)
 		}
 		if reported == 0 {
@@ -658,6 +724,7 @@ func writeEvidence(a *agg, pl *procLevelResult, base uint64, bases []uint64, wal
 			"known_findings_matched":           known,
 			"determinism_recheck":              "3 process seeds re-executed at GOMAXPROCS=1, event-log digests identical",
 			"multi_read_closer_leg_built":      *multiOK,
+			"in_process_harness_built":         *inproc,
 			"one_process_per_execution":        isolate,
 			"invocation_independence_probe":    map[bool]string{false: "the outcome of a case did not depend on what the same process had executed before it: many executions per simulation process", true: "cmd/pql keeps state between calls of run in one process: every execution ran in a process of its own"}[isolate],
 			"real_components":                  []string{"cmd/pql run()", "cmd/pql multiReadCloser", "bufio.Scanner", "pql", "pql/parser", "process-level leg: the whole binary, kernel file I/O"},
